@@ -239,6 +239,141 @@ type loopFacts struct {
 	calls        bool // non-pure call
 	allocs       bool
 	localsStored map[*ssa.Alloc]bool
+	typed        typedWrites
+}
+
+// typedWrites: an over-approximation of what a loop body may write, by static object type.
+type typedWrites struct {
+	all    bool
+	why    string
+	whole  map[int]bool     // type id -> whole objects of that type may change
+	ranges map[int][][2]int // struct type id -> leaf ranges that may change
+}
+
+func (tw *typedWrites) addWhole(id int) {
+	if tw.whole == nil {
+		tw.whole = map[int]bool{}
+	}
+	tw.whole[id] = true
+}
+func (tw *typedWrites) addRange(id, lo, hi int) {
+	if tw.ranges == nil {
+		tw.ranges = map[int][][2]int{}
+	}
+	tw.ranges[id] = append(tw.ranges[id], [2]int{lo, hi})
+}
+func (tw *typedWrites) setAll(why string) {
+	if !tw.all {
+		tw.all, tw.why = true, why
+	}
+}
+
+// addrTarget classifies the object written through addr: (struct type, leaf range) when the
+// address is a field path from a pointer to a whole-object struct, an array object for slice
+// elements, otherwise unknown.
+func (vc *VC) addrTarget(addr ssa.Value, w int, tw *typedWrites) {
+	off := 0
+	cur := addr
+	anyIdx := false
+	for {
+		switch a := cur.(type) {
+		case *ssa.FieldAddr:
+			st := a.X.Type().Underlying().(*types.Pointer).Elem()
+			off += fieldOffset(st.Underlying().(*types.Struct), a.Field)
+			if vc.eng.wholeObjectType(st) {
+				if anyIdx {
+					tw.addWhole(vc.tid(st))
+				} else {
+					tw.addRange(vc.tid(st), off, off+w)
+				}
+				return
+			}
+			cur = a.X
+			continue
+		case *ssa.IndexAddr:
+			if sl, ok := a.X.Type().Underlying().(*types.Slice); ok {
+				tw.addWhole(vc.tid(types.NewSlice(sl.Elem())))
+				return
+			}
+			// element of an array reached through a pointer: the enclosing object, any index
+			anyIdx = true
+			cur = a.X
+			continue
+		case *ssa.Alloc:
+			et := a.Type().(*types.Pointer).Elem()
+			if vc.eng.wholeObjectType(et) && !anyIdx {
+				tw.addRange(vc.tid(et), off, off+w)
+				return
+			}
+			tw.addWhole(vc.tid(et))
+			return
+		case *ssa.Global:
+			tw.addWhole(vc.tid(a.Type().(*types.Pointer).Elem()))
+			return
+		}
+		break
+	}
+	if pt, ok := cur.Type().Underlying().(*types.Pointer); ok && vc.eng.wholeObjectType(pt.Elem()) {
+		if anyIdx {
+			tw.addWhole(vc.tid(pt.Elem()))
+		} else {
+			tw.addRange(vc.tid(pt.Elem()), off, off+w)
+		}
+		return
+	}
+	tw.setAll("store through a pointer of unknown provenance")
+}
+
+// contractWrites maps a callee frame to typed writes (evaluated on dummy arguments).
+func (vc *VC) contractWrites(act *Act, st *State, fc *FuncContract, names []string, ptypes []types.Type, tw *typedWrites) {
+	if fc.Pure && len(fc.Modifies) == 0 {
+		return
+	}
+	if len(fc.Modifies) == 0 {
+		tw.setAll("callee " + fc.Key + " has no modifies clause")
+		return
+	}
+	scratch := st.clone()
+	env := &SpecEnv{vc: vc, st: scratch, old: scratch, vars: map[string]TV{}, pkg: vc.eng.pkgOfContract(fc), allocBase: scratch.top, kind: "callsite"}
+	for k, n := range names {
+		if k < len(ptypes) {
+			env.vars[n] = TV{vc.freshVal(scratch, "dummy", ptypes[k]), ptypes[k]}
+		}
+	}
+	for k := range ptypes {
+		env.vars[fmt.Sprintf("arg%d", k)] = TV{vc.freshVal(scratch, "dummy", ptypes[k]), ptypes[k]}
+	}
+	func() {
+		defer func() {
+			if r := recover(); r != nil {
+				if _, ok := r.(specError); ok {
+					tw.setAll("frame of " + fc.Key + " could not be typed")
+					return
+				}
+				panic(r)
+			}
+		}()
+		for _, l := range fc.Lets {
+			env.vars[l.Name] = env.evalTV(l.Expr)
+		}
+		items, _, everything := vc.resolveModifies(env, fc.Modifies)
+		if everything {
+			tw.setAll("callee " + fc.Key + " modifies everything")
+			return
+		}
+		for _, it := range items {
+			switch {
+			case it.kind == "region" || it.kind == "everything":
+				tw.setAll("callee " + fc.Key + " modifies " + it.text)
+			case it.otype == nil:
+				tw.setAll("callee " + fc.Key + " modifies " + it.text + " (untyped)")
+			case it.kind == "range" && it.fhi > 0:
+				tw.addRange(vc.tid(it.otype), it.flo, it.fhi)
+			default:
+				tw.addWhole(vc.tid(it.otype))
+			}
+		}
+	}()
 }
 
 func (vc *VC) loopEffects(act *Act, body map[*ssa.BasicBlock]bool) loopFacts {
@@ -268,37 +403,134 @@ func (vc *VC) loopEffects(act *Act, body map[*ssa.BasicBlock]bool) loopFacts {
 				case *ssa.Store:
 					if a := rootAlloc(i.Addr); a != nil && !vc.eng.escapes(a) {
 						lf.localsStored[a] = true
-					} else if fv, ok := i.Addr.(*ssa.FreeVar); ok && depth > 0 {
-						_ = fv
-						lf.writesHeap = true
 					} else {
 						lf.writesHeap = true
+						if _, isFV := i.Addr.(*ssa.FreeVar); isFV {
+							lf.typed.addWhole(vc.tid(i.Addr.Type().(*types.Pointer).Elem()))
+						} else {
+							vc.addrTarget(i.Addr, width(i.Val.Type()), &lf.typed)
+						}
 					}
 				case *ssa.MapUpdate:
 					lf.writesHeap = true
-				case *ssa.Alloc, *ssa.MakeSlice, *ssa.MakeMap, *ssa.MakeChan, *ssa.MakeInterface, *ssa.MakeClosure:
+					lf.typed.addWhole(vc.tid(i.Map.Type().Underlying()))
+				case *ssa.MakeClosure:
+					lf.allocs = true
+					if cf, ok := i.Fn.(*ssa.Function); ok && depth < 4 {
+						scan(cf, nil, depth+1)
+					}
+				case *ssa.Alloc, *ssa.MakeSlice, *ssa.MakeMap, *ssa.MakeChan, *ssa.MakeInterface:
 					lf.allocs = true
 				case *ssa.Go, *ssa.Defer:
+					lf.calls = true
+					lf.typed.setAll("go/defer inside loop")
+				case *ssa.Send:
 					lf.calls = true
 				case *ssa.Call:
 					if bi, ok := i.Call.Value.(*ssa.Builtin); ok {
 						switch bi.Name() {
-						case "append", "copy", "delete", "close":
+						case "append", "copy":
 							lf.writesHeap = true
 							lf.allocs = true
+							if sl, ok := i.Call.Args[0].Type().Underlying().(*types.Slice); ok {
+								lf.typed.addWhole(vc.tid(types.NewSlice(sl.Elem())))
+							}
+						case "delete":
+							lf.writesHeap = true
+							lf.typed.addWhole(vc.tid(i.Call.Args[0].Type().Underlying()))
+						case "close":
+							lf.writesHeap = true
 						}
 						continue
 					}
-					if callee := i.Call.StaticCallee(); callee != nil {
-						if fc := vc.eng.contractFor(callee); fc != nil && fc.Pure {
+					lf.allocs = true
+					if i.Call.IsInvoke() {
+						if ic := vc.eng.ifaceContract(i.Call.Value.Type(), i.Call.Method.Name()); ic != nil {
+							if ic.Pure && len(ic.Modifies) == 0 {
+								continue
+							}
+							lf.calls = true
+							sig := i.Call.Signature()
+							names := ic.ParamNames
+							pts := []types.Type{i.Call.Value.Type()}
+							for k := 0; k < sig.Params().Len(); k++ {
+								pts = append(pts, sig.Params().At(k).Type())
+							}
+							if len(names) == 0 {
+								names = []string{"recv"}
+							}
+							vc.contractWrites(act, act.entry, ic, names, pts, &lf.typed)
 							continue
 						}
-						if ec := vc.eng.externFor(callee); ec != nil && ec.Pure {
+						lf.calls = true
+						lf.typed.setAll("invoke without contract: " + i.Call.Method.Name())
+						continue
+					}
+					callee := i.Call.StaticCallee()
+					if callee == nil {
+						if mc, ok := i.Call.Value.(*ssa.MakeClosure); ok {
+							_ = mc // body scanned at the MakeClosure
+							continue
+						}
+						if fc, ok := vc.eng.contracts.Externs["fnfield "+vc.dynName(i.Call.Value)]; ok {
+							lf.calls = true
+							var pts []types.Type
+							for _, a := range i.Call.Args {
+								pts = append(pts, a.Type())
+							}
+							vc.contractWrites(act, act.entry, fc, fc.ParamNames, pts, &lf.typed)
+							continue
+						}
+						lf.calls = true
+						lf.typed.setAll("call through a function value")
+						continue
+					}
+					var fc *FuncContract
+					var names []string
+					if c := vc.eng.contractFor(callee); c != nil {
+						fc = c
+						for _, p := range callee.Params {
+							names = append(names, p.Name())
+						}
+						if c.Inline && len(callee.Blocks) > 0 && depth < 4 {
+							scan(callee, nil, depth+1)
+							continue
+						}
+					} else if c := vc.eng.ifaceContractOfImpl(callee); c != nil {
+						fc, names = c, c.ParamNames
+					} else if c := vc.eng.externFor(callee); c != nil {
+						fc, names = c, c.ParamNames
+						if c.CallbackLoop {
+							lf.calls = true
+							lf.typed.setAll("callback loop inside loop")
 							continue
 						}
 					}
+					if fc != nil {
+						if fc.Pure && len(fc.Modifies) == 0 {
+							continue
+						}
+						lf.calls = true
+						var pts []types.Type
+						if len(callee.Params) > 0 {
+							pts = paramTypes(callee)
+						} else {
+							for _, a := range i.Call.Args {
+								pts = append(pts, a.Type())
+							}
+						}
+						vc.contractWrites(act, act.entry, fc, names, pts, &lf.typed)
+						continue
+					}
+					if vc.eng.autoPure(callee) {
+						continue
+					}
+					switch callee.String() {
+					case "errors.New", "fmt.Errorf", "fmt.Sprintf", "fmt.Sprint", "(*sync.RWMutex).RLock", "(*sync.RWMutex).RUnlock", "(*sync.RWMutex).Lock", "(*sync.RWMutex).Unlock", "(*sync.Mutex).Lock", "(*sync.Mutex).Unlock":
+						continue
+					}
 					lf.calls = true
-					lf.allocs = true
+					lf.typed.setAll("callee without contract: " + callee.String())
 				}
 			}
 		}
@@ -341,7 +573,15 @@ func (vc *VC) cutLoop(act *Act, h *ssa.BasicBlock, st *State, phiVals map[*ssa.P
 			vc.havocItems(ns, items, ghosts)
 			vc.havocLocals(ns, lf, act)
 		}
+	} else if (lf.writesHeap || lf.calls) && !lf.typed.all {
+		vc.havocTyped(act, ns, st, lf)
+		if lf.calls {
+			for _, g := range vc.eng.contracts.Ghosts {
+				ns.ghost[g] = vc.fresh("gh_"+g, "Int")
+			}
+		}
 	} else if lf.writesHeap || lf.calls {
+		vc.used["loop havoc (everything): "+lf.typed.why] = true
 		vc.havocLoopAll(act, ns, st, lf)
 		for g := range ns.ghost {
 			ns.ghost[g] = vc.fresh("gh_"+g, "Int")
@@ -381,6 +621,71 @@ func (vc *VC) havocLocals(ns *State, lf loopFacts, act *Act) {
 		vc.havocItems(ns, []frameItem{{kind: "obj", ref: p.ref}}, nil)
 		// reloaded values are well-formed (assumed at load)
 	}
+}
+
+// havocTyped: only objects of the types (and, for structs, the leaf ranges) the loop body may
+// write are havocked; everything else keeps its value (typed memory).
+func (vc *VC) havocTyped(act *Act, ns, before *State, lf loopFacts) {
+	nmi, nmr := vc.fresh("MI", memSort), vc.fresh("MR", memSort)
+	tw := lf.typed
+	var ids []int
+	seen := map[int]bool{}
+	for id := range tw.whole {
+		if !seen[id] {
+			seen[id] = true
+			ids = append(ids, id)
+		}
+	}
+	for id := range tw.ranges {
+		if !seen[id] {
+			seen[id] = true
+			ids = append(ids, id)
+		}
+	}
+	sort.Ints(ids)
+	var conds []string
+	for _, id := range ids {
+		conds = append(conds, fmt.Sprintf("(not (= (typ r) %d))", id))
+	}
+	other := and(conds...)
+	for _, pr := range [][2]string{{nmi, before.mi}, {nmr, before.mr}} {
+		vc.assume(ns, fmt.Sprintf("(forall ((r Int)) (! (=> %s (= (select %s r) (select %s r))) :pattern ((select %s r))))", other, pr[0], pr[1], pr[0]))
+	}
+	for _, id := range ids {
+		if tw.whole[id] {
+			continue
+		}
+		var outs []string
+		for _, rg := range tw.ranges[id] {
+			outs = append(outs, fmt.Sprintf("(or (< j %d) (>= j %d))", rg[0], rg[1]))
+		}
+		for _, pr := range [][2]string{{nmi, before.mi}, {nmr, before.mr}} {
+			vc.assume(ns, fmt.Sprintf("(forall ((r Int) (j Int)) (! (=> (and (= (typ r) %d) %s) (= (select (select %s r) j) (select (select %s r) j))) :pattern ((select (select %s r) j))))", id, and(outs...), pr[0], pr[1], pr[0]))
+		}
+	}
+	// non-escaping locals the body does not store to keep their rows even when their type is written
+	stored := map[string]bool{}
+	for a := range lf.localsStored {
+		if p, ok := act.env[a].(PtrV); ok {
+			stored[p.ref] = true
+		}
+	}
+	var keys []string
+	for r := range ns.kept {
+		if !stored[r] {
+			keys = append(keys, r)
+		}
+	}
+	sort.Strings(keys)
+	for _, r := range keys {
+		vc.assume(ns, fmt.Sprintf("(= (select %s %s) (select %s %s))", nmi, r, before.mi, r))
+		vc.assume(ns, fmt.Sprintf("(= (select %s %s) (select %s %s))", nmr, r, before.mr, r))
+	}
+	ns.mi, ns.mr = nmi, nmr
+	old := ns.top
+	ns.top = vc.fresh("top", "Int")
+	vc.assume(ns, fmt.Sprintf("(>= %s %s)", ns.top, old))
+	vc.used["loop havoc by written object types (typed memory)"] = true
 }
 
 func (vc *VC) havocLoopAll(act *Act, ns, before *State, lf loopFacts) {
